@@ -19,7 +19,7 @@ RULE = (
     "strand ends are base-paired cyclically, interiors unpaired; every unpaired nucleotide is in the interior of "
     "exactly one single strand / hairpin / loop strand; every Strand's sequence/structure equals the slice of the "
     "sequence / dot-bracket. Nothing more is demanded (empty-interior single strands are allowed). Before the elements are "
-    "asked, one of 9 histories of read-only queries (paired() iterated partly / fully / 5'->3' only, text, fcfs, "
+    "asked, one of 11 histories of read-only queries and derivations (paired() iterated partly / fully / 5'->3' only, text, fcfs, both removals, "
     "dot_bracket) is run on the same object, chosen by a fixed function of the case; after the first answer one of 7 "
     "histories of later queries (explicit conversion without / with a solver, fcfs, removals) runs and the "
     "elements and the dot-bracket are read again together - that pair is judged. Non-trivial: "
@@ -43,9 +43,10 @@ PRE_QUERY_FUNCS = {
     "text": lambda b: (str(b), b.sequence),
     "fcfs": lambda b: b.fcfs,
     "dot-bracket": lambda b: b.dot_bracket,
+    "removals": lambda b: (b.without_pseudoknots(), b.without_isolated()),
 }
 PRE_QUERIES = [(), (), ("any-paired",), ("list-paired",), ("list-paired-5to3",), ("first-paired", "text"), ("fcfs",),
-               ("text", "list-paired", "dot-bracket"), ("dot-bracket", "any-paired")]
+               ("text", "list-paired", "dot-bracket"), ("dot-bracket", "any-paired"), ("removals",), ("removals", "text")]
 
 
 def _convert_cbc(b):
